@@ -313,7 +313,7 @@ int main(int argc, char **argv)
 			lzma_get_progress(&strm, &pin, &pout);
 			record("Progress", -1, (long)pin, (long)pout, 0, 0);
 		}
-		if (ret == LZMA_STREAM_END && action != LZMA_FINISH) {
+		if (enc && ret == LZMA_STREAM_END && action != LZMA_FINISH) {
 			// flush / barrier completed
 			record("FlushDone", -1, action, (long)ip, (long)op, 0);
 			pending_action = LZMA_RUN;
